@@ -188,26 +188,24 @@ Fixpoint sort_strs (l : list str) : list str :=
   end.
 
 Inductive case :=
-(* FindAllBuildFiles(cfg, root, prefix): the names received from the channel, in order *)
-| CFind (bfn bl exp : list str) (root prefix : str) (t : node) (observed : list str)
-(* findOriginalTask on //dir/...: the package names of the labels added, sorted *)
-| CExpand (bfn bl exp : list str) (dir : str) (t : node) (observed : list str)
-(* query.isExcluded *)
-| CExcluded (bl : list str) (dir : str) (observed : bool).
+(* FindAllBuildFiles(cfg, root, prefix) on the tree t found at root: the names received from the channel,
+   in order; and (prefix = "" only) the package names of the labels findOriginalTask(//root/...) added, sorted *)
+| CFind (bfn bl exp : list str) (root prefix : str) (t : node) (files : list str) (labels : option (list str)).
 
 Definition strs_eqb := list_eqb str_eqb.
 
 Definition check (c : case) : bool :=
   match c with
-  | CFind bfn bl exp root prefix t obs =>
+  | CFind bfn bl exp root prefix t files labels =>
       match find (Config bfn bl exp) root prefix t with
-      | Some out => strs_eqb out obs
+      | Some out => strs_eqb out files
       | None => false
       end
-  | CExpand bfn bl exp dir t obs =>
-      match expand (Config bfn bl exp) dir t with
-      | Some out => strs_eqb (sort_strs out) obs
-      | None => false
-      end
-  | CExcluded bl dir obs => Bool.eqb (is_excluded (Config [] bl []) dir) obs
+      && match labels with
+         | None => true
+         | Some ls => match expand (Config bfn bl exp) root t with
+                      | Some out => strs_eqb (sort_strs out) ls
+                      | None => false
+                      end
+         end
   end.
